@@ -27,8 +27,7 @@ IsLowerS(s) == (\E i \in 1..Len(s) : IsLowerB(s[i])) /\ ~(\E i \in 1..Len(s) : I
 EndsWith(s, suf) == Len(s) >= Len(suf) /\ SubSeq(s, Len(s) - Len(suf) + 1, Len(s)) = suf
 StartsWith(s, pre) == Len(s) >= Len(pre) /\ SubSeq(s, 1, Len(pre)) = pre
 
-RECURSIVE Concat(_)
-Concat(ss) == IF ss = <<>> THEN <<>> ELSE Head(ss) \o Concat(Tail(ss))
+Concat(ss) == FlattenSeq(ss)       \* (SequencesExt; linear, unlike a Head/Tail recursion: values of 100 KB occur in CLI sessions)
 
 \* first occurrence of pat in s at 0-based index >= from, or -1 (bytes.find)
 Find(s, pat, from) ==
